@@ -21,6 +21,7 @@ import CtyModel.Lemmas.MarksRebuild
 import CtyModel.Lemmas.d04ConvNoInv
 import CtyModel.Lemmas.d04Call
 import CtyModel.Lemmas.d04RefineNN
+import CtyModel.Lemmas.d08bUnmark
 import CtyModel.ConvertD08Env
 import CtyModel.Lemmas.OpsFnsTie
 import CtyModel.Lemmas.MarksFnsTie
@@ -237,6 +238,16 @@ theorem conversion_real_no_invention (E : Convert.Env) (fuel : Nat) (p : Convert
 theorem convert_real_top_marks_kept (E : Convert.Env) (fuel : Nat) (v : Value) (want : Ty) (r : Value)
     (h : Convert.convert E fuel v want = .ok r) (m : String) (hm : m ∈ v.marks) : m ∈ r.marks :=
   D04C.convert_top_kept E fuel v want r h m hm
+
+/-- **Deep non-interference, real model** (d08b; the statement and its companions are
+`C08.convert_commutes_with_unmarkDeep…`): converting the deeply unmarked value, with the same fuel,
+gives the deeply unmarked result — for every environment, target type and fuel, and every value whose
+marker layers are as the API builds them. -/
+theorem convert_real_commutes_with_unmarkDeep (E : Convert.Env) (fuel : Nat) (v r : Value) (want : Ty)
+    (hw : v.MarksWF) (h : Convert.convert E fuel v want = .ok r) :
+    Convert.convert E fuel v.unmarkDeep want = .ok r.unmarkDeep := by
+  obtain ⟨y, hy, rfl, _⟩ := (D08B.convert_sim E fuel hw want).ok_inv h
+  exact hy
 
 /-- **The wrapper theorems below are about the real closure.** On a marked value the closure
 `getConversion` returns is `convWrap` around itself (one unit of fuel less): `convert_marks`,
